@@ -280,6 +280,13 @@ def run_case(stream, seed, ctx, params):
         # model of recuperateBoundaryCondition / conversionBoundCond vs the written entries
         mresp = ctx['drv'].ask('bcmodel ' + ' '.join('%d:%s:%d' % (i, lean.hx(f), p) for i, f, p in cap.bc_in))
         want = 'ok ' + ' '.join('%s:%s' % (k, sid) for k, sid in parse_bc(res.t4)[1])
+        # … and the text of the block, line by line (the blank line before it included)
+        tl = res.t4.split('\n')
+        blk = []
+        if 'BOUNDARY_CONDITION' in tl:
+            i0 = tl.index('BOUNDARY_CONDITION')
+            blk = tl[i0 - 1:tl.index('END_BOUNDARY_CONDITION') + 1]
+        want += ' | ' + ' '.join(lean.hx(l) for l in blk)
         if mresp.strip() != want.strip():
             fails.append(fail('disagreement', 'boundary-condition entries: code %s / model %s' % (want[:200], mresp[:200]),
                               {'stream': 'bc', 'stage': 'bcmodel'}, replay))
